@@ -18,13 +18,13 @@ from pathlib import Path
 VERIF = Path(__file__).resolve().parent.parent
 
 ISAS = {
-    "arm": dict(triple="armv7", mattr="", mc=[], nop=bytes.fromhex("00f020e3"), sentinel=bytes.fromhex("a5c0a0e3")),
-    "thumb": dict(triple="thumbv6m", mattr="", mc=[], nop=bytes.fromhex("c046"), sentinel=bytes.fromhex("5abe")),
-    "x86_64": dict(triple="x86_64", mattr="", mc=["--output-asm-variant=1"], nop=b"\x90", sentinel=bytes.fromhex("b85a5a5a5a")),
+    "arm": dict(use_objdump=True, triple="armv7", mattr="", mc=[], nop=bytes.fromhex("00f020e3"), sentinel=bytes.fromhex("a5c0a0e3")),
+    "thumb": dict(use_objdump=True, triple="thumbv7em", mattr="", mc=[], nop=bytes.fromhex("c046"), sentinel=bytes.fromhex("5abe")),
+    "x86_64": dict(use_objdump=True, objdump=["--x86-asm-syntax=intel"], triple="x86_64", mattr="", mc=["--output-asm-variant=1"], nop=b"\x90", sentinel=bytes.fromhex("b85a5a5a5a")),
     "msp430": dict(triple="msp430", mattr="", mc=[], nop=bytes.fromhex("0343"), sentinel=bytes.fromhex("3f405a5a")),
     "avr": dict(triple="avr", mattr="+avr6", mc=[], nop=b"\x00\x00", sentinel=bytes.fromhex("f5ea")),
-    "m68k": dict(triple="m68k", mattr="", mc=[], nop=bytes.fromhex("4e71"), sentinel=bytes.fromhex("2e3c5a5a5a5a")),
-    "mips": dict(triple="mipsel", mattr="", mc=[], nop=b"\x00\x00\x00\x00", sentinel=bytes.fromhex("5a5a3937")),
+    "m68k": dict(use_objdump=True, triple="m68k", mattr="", mc=[], nop=bytes.fromhex("4e71"), sentinel=bytes.fromhex("2e3c5a5a5a5a")),
+    "mips": dict(use_objdump=True, triple="mipsel", mattr="", mc=[], nop=b"\x00\x00\x00\x00", sentinel=bytes.fromhex("5a5a3937")),
 }
 
 INTS = [0, 1, 2, 3, 4, 5, 7, 8, 12, 15, 16, 31, 32, 63, 64, 100, 127, 128, 255, 256, 1000, 4095, 4096, 32767, 65535,
@@ -170,6 +170,47 @@ def disassemble_once(isa, cfg, byte_strings):
     return res
 
 
+def disassemble_objdump(isa, cfg, byte_strings, workdir):
+    """one text (or None) per byte string, two llvm processes for the whole list: every instance gets its
+    own SYMBOL in a `.byte` blob (llvm-objdump restarts decoding at every symbol, so an undecodable
+    instance cannot desynchronise its successors), followed by nop padding; the instance's text is the
+    first instruction of its symbol if it has exactly the instance's length."""
+    nop = cfg["nop"]
+    lines = [".text"]
+    for k, bs in enumerate(byte_strings):
+        blob = bs + nop * (PAD // len(nop))
+        lines.append(f"I{k}:")
+        lines.append(".byte " + ",".join(str(x) for x in blob))
+    src, obj = workdir / f"{isa}.s", workdir / f"{isa}.o"
+    src.write_text("\n".join(lines) + "\n")
+    mattr = ["-mattr=" + cfg["mattr"]] if cfg["mattr"] else []
+    p = subprocess.run(["llvm-mc", "--triple=" + cfg["triple"], *mattr, "--filetype=obj", "-o", str(obj), str(src)],
+                       capture_output=True, text=True)
+    if p.returncode != 0:
+        raise RuntimeError(f"llvm-mc {isa}: {p.stderr[-300:]}")
+    p = subprocess.run(["llvm-objdump", "-d", "--no-show-raw-insn", *cfg.get("objdump", []),
+                        *(["--mattr=" + cfg["mattr"]] if cfg["mattr"] else []), str(obj)], capture_output=True, text=True)
+    if p.returncode != 0:
+        raise LlvmCrash(p.stderr[-200:])
+    res = [None] * len(byte_strings)
+    cur, first = None, None
+    for l in p.stdout.splitlines():
+        m = re.match(r"[0-9a-f]+ <I(\d+)>:", l)
+        if m:
+            cur, first = int(m.group(1)), None
+            continue
+        m = re.match(r"\s*([0-9a-f]+):\s+(.*)$", l)
+        if m and cur is not None:
+            addr, text = int(m.group(1), 16), m.group(2).strip().replace("\t", " ")
+            if first is None:
+                first = (addr, text)
+            elif first is not True:
+                if addr - first[0] == len(byte_strings[cur]) and not first[1].startswith("<unknown>"):
+                    res[cur] = first[1]
+                first = True
+    return res
+
+
 def disassemble(isa, cfg, items, ctx):
     """items: (class name, text, bytes, rel).  llvm 14 crashes on a few encodings (e.g. msp430 `push @r1`):
     the crashing instance is located by bisection and every instance of ITS CLASS is dropped
@@ -184,7 +225,10 @@ def disassemble(isa, cfg, items, ctx):
     todo = [i for i in todo if items[i][0] not in skip and len(items[i][2]) % align == 0]
     for _round in range(4):
         try:
-            texts = disassemble_once(isa, cfg, [items[i][2] for i in todo])
+            if cfg.get("use_objdump"):
+                texts = disassemble_objdump(isa, cfg, [items[i][2] for i in todo], ctx.workdir)
+            else:
+                texts = disassemble_once(isa, cfg, [items[i][2] for i in todo])
             for i, t in zip(todo, texts):
                 res[i] = t
             break
@@ -193,7 +237,10 @@ def disassemble(isa, cfg, items, ctx):
             while hi - lo > 1:
                 mid = (lo + hi) // 2
                 try:
-                    disassemble_once(isa, cfg, [items[i][2] for i in todo[lo:mid]])
+                    if cfg.get("use_objdump"):
+                        disassemble_objdump(isa, cfg, [items[i][2] for i in todo[lo:mid]], ctx.workdir)
+                    else:
+                        disassemble_once(isa, cfg, [items[i][2] for i in todo[lo:mid]])
                     lo = mid
                 except LlvmCrash:
                     hi = mid
@@ -321,7 +368,7 @@ def compare(isa, ptext, ltext, has_label, vocab=frozenset()):
         # the bytes decode to an instruction that ppci itself prints under ANOTHER mnemonic (and no alias
         # relation is known): a different operation.  llvm's `nop` is excluded (several llvm 14 decoders
         # print it for encodings they do not understand).
-        if lmn in vocab and lmn != "nop":
+        if lmn in vocab and lmn != "nop" and not has_label:
             return "mismatch_mnemonic", f"{pm} / {lm}"
         return "unknown_mnemonic", f"{pm} / {lm}"
     if pt == lt:
@@ -358,6 +405,7 @@ def check(ctx, only=None):
     from ppci.arch.encoding import Instruction
     tabs = get_tabs(ctx)
     workdir = Path(tempfile.mkdtemp(prefix="c08llvm"))
+    ctx.workdir = workdir
     try:
         for isa, cfg in ISAS.items():
             if only and isa not in only:
